@@ -114,8 +114,8 @@ func (vc *VC) runPass() {
 				h := st.heap[n].S
 				vc.emit(fmt.Sprintf("(assert (forall ((r Int)) (! (=> (> r alloc$base) (not (select %s r))) :pattern ((select %s r)))))", h, h))
 			}
-			if noRefAxioms {
-				continue
+			if true {
+				continue // superseded by the read-time assumption assumeAllocated (no quantifiers)
 			}
 			if vc.universe[n] == arrSort(SInt, SSlc) {
 				// slices stored in objects on entry were allocated before the call
